@@ -19,6 +19,7 @@ import (
 	"bufio"
 	"bytes"
 	"crypto/sha256"
+	"encoding/hex"
 	"fmt"
 	"strconv"
 
@@ -167,6 +168,20 @@ func (o *ubOracle) addCommit(blind []byte, value uint64, gen []byte) []byte {
 		res   []byte
 	}{blind, value, gen, r})
 	return r
+}
+func (o *ubOracle) addCommitRaw(blind []byte, value uint64, gen, res []byte) {
+	o.commit = append(o.commit, struct {
+		blind []byte
+		value uint64
+		gen   []byte
+		res   []byte
+	}{blind, value, gen, res})
+}
+func (o *ubOracle) addSignRaw(a ubSignArgs, res []byte) {
+	o.sign = append(o.sign, struct {
+		a   ubSignArgs
+		res []byte
+	}{a, res})
 }
 func (o *ubOracle) addSign(a ubSignArgs) []byte {
 	r := ubPrimSign(a)
@@ -557,6 +572,28 @@ func ubExpectedSign(o *ubOracle, value uint64, asset, abf, vbf, nonce, script []
 		msg: msg, extra: script, gen: gen})
 }
 
+// (recipient key, ephemeral key) pairs whose ECDH shared point has an x coordinate starting
+// with one or two zero bytes (found with `impl gen ubl-grind 77 6`): the ECDH secret hashes the
+// 33-byte compressed point, leading zeros included
+var ubZeroXPairs = [][2]string{
+	{"d7b4a45941466bff31bce7fd03fe6dc72b4d6d853f6f2ec0c28ff64eaaa762b6", "255eede6dac3dac09c3dcd5edb8d6508e1ec248a55fd2815a483d0f6cab7c5d7"}, // shared x = 00bc7a10...
+	{"6e742c1b989fa531c9d852c4292a8495b4346822de911999e593355dccdd662e", "d1004e436f84e8f346922b4f52c15b0f27735a76fa431569ab1b5dfa1438cdd4"}, // shared x = 007f9e16...
+	{"ee7a16b72815497cd73653a06776d465ff159ddc930789a2da1926722f7bf05a", "cb9e073a94d7ce96026ddd22ad8954ce3e5640d582ddf4352b6882c6268867f8"}, // shared x = 000006ac...
+	{"704c4a61a1e149d01aea4b36af1c1295ca22917326ea9b71df616651b3208ea4", "882135c83bf7c78089b31cc50aeea768a053705011427470723e93eafa2f9ac9"}, // shared x = 00b25736...
+	{"97eda35dffb8fe688653a1828f37c623e3c8fff39b9ff51a2d1ec7b7f5ef2d5d", "63efd523c8eb818312b8eac461784671139c16b1f01078a6db67c858bb7cbb1f"}, // shared x = 002b5f87...
+	{"206ed09976e59c33a78692115a5cf8101538fb4cff29e4304063e49e9e579670", "822f4b5511ec517851eb99957568951ca7aba03f683c331e9e083df9952a881d"}, // shared x = 0000fe98...
+}
+
+// forced choices for the corpus generator
+type ublForced struct {
+	pair     int // index into ubZeroXPairs, -1 = none
+	value    *uint64
+	script   []byte
+	scenario int
+}
+
+var ublForce *ublForced
+
 func genUblCase(r *Rng) (*ublCase, *ubOracle) {
 	c := &ublCase{}
 	o := &ubOracle{}
@@ -573,10 +610,43 @@ func genUblCase(r *Rng) (*ublCase, *ubOracle) {
 	c.esk = ubGenScalar(r)
 	c.R = ubPubOf(c.rsk)
 	c.E = ubPubOf(c.esk)
+	// key pairs whose shared point has leading zero byte(s) in x: hard-coded ones, or found now
+	zeroX := -2
+	if r.Chance(12) {
+		zeroX = -1
+		if r.Bool() {
+			zeroX = r.Intn(len(ubZeroXPairs))
+		}
+	}
+	if ublForce != nil {
+		zeroX = ublForce.pair
+		if zeroX < 0 {
+			zeroX = -2
+		}
+	}
+	if zeroX >= 0 {
+		c.rsk, _ = hex.DecodeString(ubZeroXPairs[zeroX][0])
+		c.esk, _ = hex.DecodeString(ubZeroXPairs[zeroX][1])
+	} else if zeroX == -1 {
+		if esk := ubGrindZeroX(r, c.rsk, 1); esk != nil {
+			c.esk = esk
+		}
+	}
+	c.R = ubPubOf(c.rsk)
+	c.E = ubPubOf(c.esk)
 	c.mode = "k"
 	c.key = c.rsk
 
 	scenario := r.Intn(100)
+	if ublForce != nil {
+		scenario = ublForce.scenario
+		if ublForce.value != nil {
+			c.value = *ublForce.value
+		}
+		if ublForce.script != nil {
+			c.script = ublForce.script
+		}
+	}
 	// blinding-side variations (may make the blinding fail: unsupported values, bad scalars)
 	switch {
 	case scenario < 6:
@@ -736,7 +806,125 @@ func ubTrimRight(s string) string {
 	return s
 }
 
+// boundary cases for corpus/ubl.txt: every hard-coded leading-zero pair (honest, with the key),
+// and a zero amount for a spendable, an OP_RETURN and an empty script
+func genUblCorpus(r *Rng, n int, w *bufio.Writer) {
+	emit := func(f *ublForced) {
+		ublForce = f
+		c, o := genUblCase(r)
+		ublForce = nil
+		b := &sb{}
+		c.write(b)
+		o.write(b)
+		fmt.Fprintln(w, ubTrimRight(b.String()))
+	}
+	for i := range ubZeroXPairs {
+		emit(&ublForced{pair: i, scenario: 20})
+	}
+	zero := uint64(0)
+	for _, scr := range [][]byte{{0x00, 0x14, 1, 2, 3, 4, 5, 6, 7, 8, 9, 10, 11, 12, 13, 14, 15, 16, 17, 18, 19, 20}, {0x51}, {0x6a}, {}} {
+		emit(&ublForced{pair: -1, value: &zero, script: scr, scenario: 20})
+	}
+}
+
+// reads the recorded primitive calls that follow the inputs on a case line
+func ubReadOracle(t *Toks) *ubOracle {
+	opt := func() []byte {
+		if len(t.l) > 0 && t.l[0] == "!" {
+			t.Next()
+			return nil
+		}
+		b := t.Hex()
+		if b == nil {
+			b = []byte{}
+		}
+		return b
+	}
+	o := &ubOracle{}
+	for n := t.Int(); n > 0; n-- {
+		a, b := t.Hex(), t.Hex()
+		o.ecdh = append(o.ecdh, [3][]byte{a, b, opt()})
+	}
+	for n := t.Int(); n > 0; n-- {
+		a, b := t.Hex(), t.Hex()
+		o.genb = append(o.genb, [3][]byte{a, b, opt()})
+	}
+	for n := t.Int(); n > 0; n-- {
+		a := t.Hex()
+		o.geng = append(o.geng, [2][]byte{a, opt()})
+	}
+	for n := t.Int(); n > 0; n-- {
+		bl := t.Hex()
+		v := t.ubHex64()
+		g := t.Hex()
+		o.addCommitRaw(bl, v, g, opt())
+	}
+	for n := t.Int(); n > 0; n-- {
+		var a ubSignArgs
+		a.min = t.ubHex64()
+		a.commit, a.vbf, a.nonce = t.Hex(), t.Hex(), t.Hex()
+		a.exp, a.mb = t.Int(), t.Int()
+		a.value = t.ubHex64()
+		a.msg, a.extra, a.gen = t.Hex(), t.Hex(), t.Hex()
+		o.addSignRaw(a, opt())
+	}
+	return o
+}
+
 func init() {
+	gens["ubl-corpus"] = genUblCorpus
 	gens["ubl"] = genUblCases
 	runs["ubl"] = runUbl
 }
+
+// ---------- key pairs whose ECDH shared point has an x coordinate with leading zero bytes ----------
+
+// x coordinate (32 bytes, zero padded) of priv * Pub, with btcec
+func ubSharedX(pub, priv []byte) []byte {
+	pk, err := btcec.ParsePubKey(pub)
+	if err != nil {
+		return nil
+	}
+	var p, q btcec.JacobianPoint
+	pk.AsJacobian(&p)
+	var k btcec.ModNScalar
+	if overflow := k.SetByteSlice(priv); overflow || k.IsZero() {
+		return nil
+	}
+	btcec.ScalarMultNonConst(&k, &p, &q)
+	q.ToAffine()
+	x := q.X.Bytes()
+	return x[:]
+}
+
+// searches an ephemeral key for the given recipient key such that the shared x starts with
+// `zeros` zero bytes (about 256^zeros tries, every candidate from the Rng)
+func ubGrindZeroX(r *Rng, rsk []byte, zeros int) []byte {
+	R := ubPubOf(rsk)
+	for tries := 0; tries < 40000000; tries++ {
+		esk := ubGenScalar(r)
+		x := ubSharedX(R, esk)
+		ok := x != nil
+		for i := 0; ok && i < zeros; i++ {
+			ok = x[i] == 0
+		}
+		if ok {
+			return esk
+		}
+	}
+	return nil
+}
+
+func genUblGrind(r *Rng, n int, w *bufio.Writer) {
+	for i := 0; i < n; i++ {
+		rsk := ubGenScalar(r)
+		z := 1
+		if i%3 == 2 {
+			z = 2
+		}
+		esk := ubGrindZeroX(r, rsk, z)
+		fmt.Fprintf(w, "{%q, %q}, // shared x = %s\n", hex.EncodeToString(rsk), hex.EncodeToString(esk), hex.EncodeToString(ubSharedX(ubPubOf(rsk), esk)))
+	}
+}
+
+func init() { gens["ubl-grind"] = genUblGrind }
